@@ -207,8 +207,18 @@ def run_in(case, ctx, d, tmp, refdir, cwd, actdir, systmp, out):
         # the directory is configured (for the class, as a test module does
         # at import) before it exists, and created before the first test
         os.rmdir(tmp)
-        ReferenceTest.set_defaults(tmp_dir=tmp)
-        rt = ReferenceTest(rec)
+
+        class Mine(ReferenceTest):
+            pass
+
+        class Other(ReferenceTest):
+            pass
+        Mine.set_defaults(tmp_dir=tmp)
+        # another test class configures a directory of its own afterwards
+        other = os.path.join(d, 'other-tmp')
+        os.makedirs(other)
+        Other.set_defaults(tmp_dir=other)
+        rt = Mine(rec)
         os.makedirs(tmp)
         out.label('tmp_dir:set_defaults-before-mkdir')
     else:
